@@ -381,6 +381,66 @@ def v15_editor_keys(ctx: Any, vm: Any) -> None:
                       'on a round trip', func='Entity.export', text=f'editor key {k} written')
 
 
+def _escapes_iteration(fn: ast.AST, lp: ast.For) -> bool:
+    """Does the function object outlive the iteration that made it?  (yielded, returned, appended / stored into a container or attribute.)
+    A lambda handed straight to sorted()/min()/map()... is consumed at once and is not affected by late binding."""
+    parent: Dict[ast.AST, ast.AST] = {}
+    for n in ast.walk(lp):
+        for ch in ast.iter_child_nodes(n):
+            parent[ch] = n
+
+    def stored(expr: ast.AST) -> bool:
+        p = parent.get(expr)
+        while isinstance(p, (ast.Tuple, ast.List, ast.Dict, ast.Set, ast.Starred)):
+            expr, p = p, parent.get(p)
+        if isinstance(p, (ast.Yield, ast.YieldFrom, ast.Return)):
+            return True
+        if isinstance(p, ast.Call) and isinstance(p.func, ast.Attribute) and p.func.attr in ('append', 'add', 'insert', 'extend', 'setdefault', 'update', 'register') and expr in p.args:
+            return True
+        if isinstance(p, ast.keyword):
+            pp = parent.get(p)
+            return isinstance(pp, ast.Call) and not (dotted(pp.func) or '') in ('sorted', 'min', 'max', 'map', 'filter', 'sort') and not (isinstance(pp.func, ast.Attribute) and pp.func.attr == 'sort')
+        if isinstance(p, (ast.Assign, ast.AnnAssign)):
+            tg = p.targets if isinstance(p, ast.Assign) else [p.target]
+            return any(isinstance(t, (ast.Subscript, ast.Attribute)) for t in tg) or any(isinstance(t, ast.Name) and _name_escapes(t.id) for t in tg)
+        return False
+
+    def _name_escapes(name: str) -> bool:
+        return any(isinstance(n, ast.Name) and n.id == name and isinstance(n.ctx, ast.Load) and stored(n) for n in ast.walk(lp))
+    if isinstance(fn, ast.Lambda):
+        return stored(fn)
+    return _name_escapes(fn.name)        # type: ignore[attr-defined]
+
+
+def late_bound_closures(tree: ast.AST) -> List[Tuple[ast.AST, str, ast.AST]]:
+    """(inner function, loop variable, loop) for every def/lambda created inside a `for` loop that reads the loop variable as a free
+    variable: Python binds it when the function is CALLED, so every function made by the loop sees the value of the last iteration."""
+    out: List[Tuple[ast.AST, str, ast.AST]] = []
+    for lp in ast.walk(tree):
+        if not isinstance(lp, ast.For):
+            continue
+        lvars = {n.id for n in ast.walk(lp.target) if isinstance(n, ast.Name)}
+        for st in lp.body:
+            for fn in ast.walk(st):
+                if not isinstance(fn, (ast.FunctionDef, ast.Lambda)):
+                    continue
+                params = {a.arg for a in fn.args.args + fn.args.kwonlyargs + fn.args.posonlyargs} | ({fn.args.vararg.arg} if fn.args.vararg else set()) | ({fn.args.kwarg.arg} if fn.args.kwarg else set())
+                body_nodes = fn.body if isinstance(fn.body, list) else [fn.body]
+                assigned = {t.id for b in body_nodes for n in ast.walk(b) if isinstance(n, (ast.Assign, ast.AugAssign, ast.AnnAssign, ast.For)) for t in ast.walk(n.targets[0] if isinstance(n, ast.Assign) else n.target)
+                            if isinstance(t, ast.Name) and isinstance(t.ctx, ast.Store)}
+                if not _escapes_iteration(fn, lp):
+                    continue
+                for b in body_nodes:
+                    for n in ast.walk(b):
+                        if isinstance(n, ast.Name) and isinstance(n.ctx, ast.Load) and n.id in lvars and n.id not in params and n.id not in assigned:
+                            out.append((fn, n.id, lp))
+                            break
+                    else:
+                        continue
+                    break
+    return out
+
+
 def v9_to_v14(ctx: Any, vm: Any) -> None:
     # ---- V9: brace depth of every named block _export_displacement emits -------------------------------------------------
     ed = vm.func('Side._export_displacement')
@@ -564,6 +624,14 @@ def run(ctx: Any, prog: Program) -> None:
     ctx.rule('C06.V8', 'displacement rows: reader and writer address vertex (x, y) of a row block as index size*y + x', floor=8)
     ctx.rule('C06.V5', 'IDs read from the file are passed to the constructors; preserve_ids selects the pass-through manager', floor=6)
 
+    # ---- V16: setters / callbacks made in a loop (the displacement row tables are built this way) ----------------------------------
+    ctx.rule('C06.V16', 'functions created in a loop bind the loop value at creation (factory or default argument), not when they are called', floor=1)
+    probe = ast.parse('def make():\n    for ind in range(4):\n        def setter(v, value):\n            v.multi[ind] = value\n        yield setter\n')
+    ctx.check('C06.V16', len(late_bound_closures(probe)) == 1, vm, vm.tree, 'self-check of the detector on a known late-binding closure', func='<detector>', text='late-binding probe is recognised')
+    for fn_, var_, lp_ in late_bound_closures(vm.tree):
+        nm = getattr(fn_, 'name', '<lambda>')
+        ctx.check('C06.V16', False, vm, fn_, f'`{nm}` is created inside `for {ast.unparse(lp_.target)} in ...` and reads `{var_}` when it is called, not when it is created: every function made by the loop uses the value of the '
+                  f'LAST iteration (all four multiblend setters would store into the same colour slot)', text=f'{nm}: loop variable {var_} bound late')
     # every class with both export and parse must be in PAIRS (discovery cross-check)
     for cname, c in vm.all_classes().items():
         ms = vm.methods(cname)
@@ -573,6 +641,7 @@ def run(ctx: Any, prog: Program) -> None:
     all_reader_keys: Set[str] = set()
     all_writer_blocks: Set[str] = set()
     per_pair: Dict[str, Tuple[Set[str], Set[str], Set[str]]] = {}
+    unresolved_r: Dict[str, List[str]] = {}
     for pname, (ws, rs) in PAIRS.items():
         wk: Set[str] = set()
         wb: Set[str] = set()
@@ -588,18 +657,23 @@ def run(ctx: Any, prog: Program) -> None:
             rk |= k
             for u in unk:
                 ctx.note(f'{r}: unresolved reader key {u}')
+                unresolved_r.setdefault(pname, []).append(f'{r}: {u}')
         per_pair[pname] = (fold_keys(wk), fold_keys(wb), fold_keys(rk))
         all_reader_keys |= fold_keys(rk)
         all_writer_blocks |= fold_keys(wb)
     for pname, (wk, wb, rk) in per_pair.items():
         wnode = vm.func(PAIRS[pname][0][0])
         rnode = vm.func(PAIRS[pname][1][0])
-        for k in sorted(wk):
+        if pname in unresolved_r:
+            # a reader key expression the resolver cannot evaluate: the reader's key set is incomplete, so "nobody reads X" cannot be
+            # concluded for this pair (it would be an alarm about the checker's own blind spot) - the comparison is declined
+            ctx.shape('C06.V1', False, vm, rnode, f'{pname}: reader key expression(s) not resolvable: {unresolved_r[pname][:3]}', func=PAIRS[pname][1][0], text=f'{pname}: reader key table resolvable')
+        for k in sorted(wk if pname not in unresolved_r else ()):
             if (pname, k) in WRITER_ONLY_OK:
                 continue
             ctx.check('C06.V1', matches(k, rk), vm, wnode, f'{pname}: the writer emits key "{k}" but the reader never consumes it (reader keys: {sorted(rk)}): '
                       'the field is lost / defaulted on every round trip', func=PAIRS[pname][0][0], text=f'{pname} writes "{k}"')
-        for b in sorted(wb):
+        for b in sorted(wb if not unresolved_r else ()):
             if (pname, b) in WRITER_ONLY_OK:
                 continue
             ctx.check('C06.V1', matches(b, rk | all_reader_keys), vm, wnode, f'{pname}: the writer emits block `{b}` which no reader looks for',
@@ -997,6 +1071,7 @@ def elt_token_alternatives(elt: ast.AST, tokens_of_type: Dict[str, int]) -> Opti
 
 
 MUTANTS = [
+    {'id': 'multiblend_setters_bind_late', 'file': 'vmf.py', 'find': "_disprow_multiblend = [\n    (f'multiblend_color_{i}', _make_disprow_set_multiblend(i))\n    for i in range(4)\n]", 'replace': "_disprow_multiblend = []\nfor _i in range(4):\n    def _setter(vert: DispVertex, value: Vec) -> None:\n        assert vert.multi_colors is not None\n        vert.multi_colors[_i] = value\n    _disprow_multiblend.append((f'multiblend_color_{_i}', _setter))", 'expect': 'C06.V16'},
     {'id': 'world_comments_not_exported', 'file': 'vmf.py', 'find': "        if self.comments:\n            buffer.write(f'{ind}\\t\\t\"comments\" \"{escape_text(self.comments)}\"\\n')\n        buffer.write(ind + '\\t}\\n')\n\n        buffer.write(ind + '}\\n')", 'replace': "        if self.comments and not _is_worldspawn:\n            buffer.write(f'{ind}\\t\\t\"comments\" \"{escape_text(self.comments)}\"\\n')\n        buffer.write(ind + '\\t}\\n')\n\n        buffer.write(ind + '}\\n')", 'expect': 'C06.V15'},
     {'id': 'multiblend_outside_dispinfo', 'file': 'vmf.py', 'find': "        buffer.write(f'{ind}\\t\\t}}\\n')\n\n        if disp_multiblend and any(vert.multi_blend for vert in self._disp_verts):", 'replace': "        buffer.write(f'{ind}\\t\\t}}\\n{ind}\\t}}\\n')\n\n        if disp_multiblend and any(vert.multi_blend for vert in self._disp_verts):",
      'extra': [{'file': 'vmf.py', 'find': "        # Close the dispinfo block - the multiblend data lives inside it.\n        buffer.write(f'{ind}\\t}}\\n')\n", 'replace': ""}], 'expect': 'C06.V9'},
